@@ -21,6 +21,7 @@ DebugOk(r) ==
     /\ r.sameOutcome                                 \* as without the wrapper
     /\ r.trailingOK                                  \* post-handshake bytes not lost
     /\ r.calls = 1
+    /\ r.wrapOK                                      \* with Dialer.WrapConn: the application's wrapper is what comes back and carries all traffic
 
 Ok(r) == CASE r.k = "pair" -> PairOk(r)
            [] r.k = "indep" -> IndepOk(r)
